@@ -49,7 +49,7 @@ PairsT(h, i) == IF i > Len(h) THEN <<>>
 RenderDoc(h) == IF INLINE THEN <<116, 32, 61, 32, 123>> \o PairsT(h, 1) \o <<125, 10>> ELSE DocText(h, 1)
 
 \* direction G: one case per behaviour
-Emit == EMIT => PrintT(ToJson([text |-> RenderDoc(hist), n |-> Len(hist)]))
+Emit == EMIT => PrintT(ToJson([text |-> RenderDoc(hist), n |-> Len(hist), res |-> res]))
 
 \* generator and recogniser are two formulations of one language
 GenLexAgree ==
